@@ -10,14 +10,14 @@ Inductive case :=
 (* a generated program: files (name id, bytes), trace limit, the active calls
    outermost first with the events of each frame, the raise; observed: the
    frames printed by Error.String(), and whether its first line is Error() *)
-| CTrace (landed : Z) (files : file_table) (limit : Z) (levels : list level) (r : raise)
+| CTrace (files : file_table) (limit : Z) (levels : list level) (r : raise)
          (hdr_ok : bool) (obs : list (Z * sloc))
 (* the same program, class side: kind id; observed
    [class of Run's error; class named by e.name; e instanceof its constructor;
     e instanceof Error; prototype is the constructor's prototype and e.constructor is it;
     [[Class]] is Error; e.message is a non-empty string;
     String(e) = name: message = Error(); e.stack = Error.String()] *)
-| CFacts (landed : Z) (kind : Z) (obs : list Z)
+| CFacts (kind : Z) (obs : list Z)
 (* file.File.Position on a text at an offset *)
 | CPos (src : list Z) (offset : Z) (obs : option (Z * Z))
 (* position reported by the parser for an offending token put at [offset] *)
@@ -36,38 +36,11 @@ Inductive case :=
    operand's own exception, 8 anything else) and the log of conversions *)
 | COrder (op : Z) (l : lop) (r : rop) (obs : Z * list Z)
 (* file.FileSet.Position over several files *)
-| CFileSet (landed : Z) (files : list (list Z)) (idx : Z) (obs : option (Z * Z * Z)).
+| CFileSet (files : list (list Z)) (idx : Z) (obs : option (Z * Z * Z)).
 
-(* [landed]: which of the three proposed repairs (proposed_fixes/C19-*.diff) the
-   tree under test already contains, measured by the harness on the pinned
-   witnesses before anything else: bit 0 direct eval restores the caller's file,
-   bit 1 malformed RegExp pattern raises SyntaxError, bit 2 FileSet.Position
-   subtracts the base once.  Every other case is judged against the model with
-   exactly these repairs switched on, so the check stays exact on both sides of
-   such a commit; any other change of behaviour is a violation as before. *)
-Definition base_fixes (landed : Z) : fixes :=
-  mkFixes false (Z.testbit landed 0) false false false false.
 Definition fx_or (a b : fixes) : fixes :=
-  mkFixes (fx_site a || fx_site b) (fx_eval a || fx_eval b) (fx_at a || fx_at b)
+  mkFixes (fx_site a || fx_site b) (fx_at a || fx_at b)
           (fx_nofile a || fx_nofile b) (fx_term a || fx_term b) (fx_char a || fx_char b).
-Definition model_class_l (landed : Z) (kind : Z) : Z :=
-  if (kind =? 26) && Z.testbit landed 1 then 5 else model_class kind.
-
-(* FileSet.Position once repaired: file.Position(idx) of the file that contains idx *)
-Fixpoint fileset_position_fixed_in (l : list (Z * list Z)) (idx : Z) (k : Z) : option (Z * Z * Z) :=
-  match l with
-  | [] => None
-  | (base, s) :: r =>
-      if idx <=? base + zlen s then
-        match file_position base s idx with
-        | Some (ln, c) => Some (k, ln, c)
-        | None => None
-        end
-      else fileset_position_fixed_in r idx (k + 1)
-  end.
-Definition fileset_model (landed : Z) (files : list (list Z)) (idx : Z) :=
-  if Z.testbit landed 2 then fileset_position_fixed_in (fileset_bases files 1) idx 0
-  else fileset_position files idx.
 
 Definition sloc_eqb (a b : sloc) : bool :=
   match a, b with
@@ -84,20 +57,19 @@ Definition zzz_eqb (a b : Z * Z * Z) : bool := zz_eqb (fst a) (fst b) && (snd a 
 (* finding classes *)
 Definition cl_parsethrow := 1.
 Definition cl_site := 2.
-Definition cl_eval := 3.
+(* 3 was the stale file after a direct eval: repaired in /repo (744b40b) *)
 Definition cl_at := 4.
 Definition cl_msg := 5.
 Definition cl_term := 6.
 Definition cl_char := 7.
 Definition cl_text := 8.
 Definition cl_nofile := 9.
-Definition cl_regexp := 10.
-Definition cl_fileset := 11.
+(* 10 (RegExp pattern TypeError, ef38bfe) and 11 (FileSet.Position, 6df0226) are repaired in /repo *)
 
 Definition with_fix (i : Z) : fixes :=
-  mkFixes (i =? cl_site) (i =? cl_eval) (i =? cl_at) (i =? cl_nofile) (i =? cl_term) (i =? cl_char).
+  mkFixes (i =? cl_site) (i =? cl_at) (i =? cl_nofile) (i =? cl_term) (i =? cl_char).
 Definition without_fix (i : Z) : fixes :=
-  mkFixes (negb (i =? cl_site)) (negb (i =? cl_eval)) (negb (i =? cl_at)) (negb (i =? cl_nofile))
+  mkFixes (negb (i =? cl_site)) (negb (i =? cl_at)) (negb (i =? cl_nofile))
           (negb (i =? cl_term)) (negb (i =? cl_char)).
 
 Definition trace_with (fx : fixes) files limit levels r := model_trace fx (pos_of fx) files limit levels r.
@@ -122,7 +94,7 @@ Fixpoint first_necessary (b : fixes) (cands : list Z) (spec : list (Z * sloc)) f
       then first_necessary b rest spec files limit levels r else i
   end.
 
-Definition cands := [cl_site; cl_eval; cl_at; cl_nofile; cl_term; cl_char].
+Definition cands := [cl_site; cl_at; cl_nofile; cl_term; cl_char].
 
 Definition trace_class (b : fixes) files limit levels r : Z :=
   let base := trace_with b files limit levels r in
@@ -137,7 +109,7 @@ Definition facts_expect (cls : Z -> Z) (msg : Z -> bool) (kind : Z) : list Z :=
 
 Definition facts_class (kind : Z) : Z :=
   if negb (model_class kind =? spec_class kind) then
-    (if kind =? 26 then cl_regexp else if kind =? 20 then cl_parsethrow else 99)
+    (if kind =? 20 then cl_parsethrow else 99)
   else if negb (Bool.eqb (model_msg_nonempty kind) (spec_msg_nonempty kind)) then cl_msg
   else 0.
 
@@ -174,16 +146,16 @@ Definition verdict (c : case) : Z * Z :=
                 (arg_expect (model_throws fn a) (negb ((fn =? 5) || (fn =? 6))))
                 (arg_expect st true) cl_msg
       end
-  | CTrace landed files limit levels r hdr obs =>
+  | CTrace files limit levels r hdr obs =>
       if negb hdr then (3, 0) else
-      let b := base_fixes landed in
+      let b := nofix in
       let model := trace_with b files limit levels r in
       let spec := spec_trace files limit levels r in
       if trace_eqb model spec then judge trace_eqb obs model spec 0
       else judge trace_eqb obs model spec (trace_class b files limit levels r)
-  | CFacts landed kind obs =>
+  | CFacts kind obs =>
       if negb (known_kind kind) then declined else
-      judge zlist_eqb obs (facts_expect (model_class_l landed) model_msg_nonempty kind)
+      judge zlist_eqb obs (facts_expect model_class model_msg_nonempty kind)
             (facts_expect spec_class spec_msg_nonempty kind) (facts_class kind)
   | CPos src offset obs =>
       judge (option_eqb zz_eqb) obs (file_position_off src offset) (es5_position src offset) (pos_class src offset)
@@ -193,6 +165,6 @@ Definition verdict (c : case) : Z * Z :=
   | CText t obs_go obs_js =>
       judge (fun a b => zlist_eqb (fst a) (fst b) && zlist_eqb (snd a) (snd b))
             (obs_go, obs_js) (uncaught_text t, spec_text t) (spec_text t, spec_text t) cl_text
-  | CFileSet landed files idx obs =>
-      judge (option_eqb zzz_eqb) obs (fileset_model landed files idx) (fileset_spec files idx) cl_fileset
+  | CFileSet files idx obs =>
+      judge (option_eqb zzz_eqb) obs (fileset_position files idx) (fileset_spec files idx) cl_char
   end.
